@@ -250,6 +250,34 @@ pub fn run(tape: &[u8], cx: &Cx) -> Outcome {
             },
         }
     }
+    // the built-in constants (empty / full, epsilon / Sigma+ are complement partners): after each has been
+    // differentiated on this manager, class ids that are invalid for a constant are still rejected
+    {
+        let consts = [("empty", mgr.empty()), ("full", mgr.full()), ("epsilon", mgr.epsilon()), ("sigma_plus", mgr.sigma_plus())];
+        for (_, k) in consts.iter() {
+            let _ = mgr.char_derivative(*k, 0x61);
+            for cid in k.class_ids().collect::<Vec<_>>() {
+                let _ = mgr.class_derivative(*k, cid);
+            }
+        }
+        for (name, k) in consts.iter() {
+            let nk = k.char_ranges().count();
+            let mut bad = vec![ClassId::Interval(nk), ClassId::Interval(nk + 3)];
+            if !k.class_ids().any(|c| c == ClassId::Complement) {
+                bad.push(ClassId::Complement);
+            }
+            for cid in bad {
+                o.evals += 1;
+                match mgr.class_derivative(*k, cid) {
+                    Err(Error::BadClassId) => {}
+                    other => {
+                        o.fail("C03/invalid-class-id-accepted", format!("class_derivative({}, {}) = {:?} after the constants were differentiated on this manager, expected Err(BadClassId)", name, cid, other.map(|r| r.to_string())));
+                        return o;
+                    }
+                }
+            }
+        }
+    }
     o.nontrivial = ranges.len() + comp_nonempty as usize >= 2 && straddles;
     if straddles {
         o.tag("query-straddles-classes");
